@@ -292,6 +292,9 @@ def query(ctx, R, py, modules):
     return n
 
 
+CX_PROPS = {"C01", "C02", "C03", "C09", "C10", "C14", "C15"}
+
+
 def run(ctx, pid, py, modules, truth_floor=1):
     from . import truth
     truth.rule(ctx, pid + ".TRUTH", py, modules, floor=truth_floor)
@@ -300,6 +303,8 @@ def run(ctx, pid, py, modules, truth_floor=1):
     acc(ctx, pid + ".ACC", py, modules)
     copies(ctx, pid + ".COPY", py, modules)
     query(ctx, pid + ".QUERY", py, modules)
+    from . import argorder
+    argorder.rule(ctx, pid + ".ARGS", py_modules=modules, cx=pid in CX_PROPS)
     nn = names(ctx, pid + ".NAMES", py, modules)
     ctx.floor(pid + ".NAMES", max(1, nn // 2))
     ctx.floor(pid + ".LOSSY", max(1, nl // 2))
